@@ -5,6 +5,7 @@
  *   VPSCHED_LOG=<file>          append one line per considered call:  "<pid> <n> <M|R> <call> <path> [<path2>] [<extra>]"
  *                               (M = mutating: counted by KILL_AT; R = read-side: never counted)
  *   VPSCHED_KILL_AT=<k>         SIGKILL self immediately BEFORE the k-th mutating considered call
+ *   VPSCHED_FAIL_AT=<k>         the k-th mutating considered call is NOT executed and fails with EIO (a survivable I/O fault)
  *   VPSCHED_PIPES=1             writes to pipes/sockets (other than fd 1/2) are considered mutating calls too
  *   VPSCHED_SOCK=<unix path>    gate mode: every considered call (and read(0) when VPSCHED_GATE_STDIN=1) is
  *                               announced to the controller ("<id> <M|R> <call> <path> ...\n") and the thread waits
@@ -42,7 +43,9 @@ static int (*real_close)(int);
 static pthread_mutex_t mu = PTHREAD_MUTEX_INITIALIZER;
 static int mut_count = 0, all_count = 0, sock_fd = -2, inited = 0;
 static const char *watch, *logf, *sockp, *ident;
-static int kill_at = 0, pipes = 0, gate_stdin = 0, disabled = 0;
+static int kill_at = 0, fail_at = 0, pipes = 0, gate_stdin = 0, disabled = 0;
+static __thread int pending_fail = 0;
+static int take_fail(void) { if (pending_fail) { pending_fail = 0; errno = EIO; return 1; } return 0; }
 
 static void init(void) {
   if (inited) return;
@@ -60,6 +63,8 @@ static void init(void) {
   if (!ident) ident = "?";
   const char *k = getenv("VPSCHED_KILL_AT");
   if (k) kill_at = atoi(k);
+  const char *fa = getenv("VPSCHED_FAIL_AT");
+  if (fa) fail_at = atoi(fa);
   pipes = getenv("VPSCHED_PIPES") != NULL;
   gate_stdin = getenv("VPSCHED_GATE_STDIN") != NULL;
   {
@@ -123,6 +128,7 @@ static int announce(int mutating, const char *call, const char *a0, const char *
     if (fd >= 0) { ssize_t r = real_write(fd, buf, n); (void)r; real_close(fd); }
   }
   if (mutating && kill_at && n_mut == kill_at) { kill(getpid(), SIGKILL); for (;;) pause(); }
+  if (mutating && fail_at && n_mut == fail_at) pending_fail = 1;
   if (sockp) {
     if (sock_fd == -2) {
       sock_fd = socket(AF_UNIX, SOCK_STREAM | SOCK_CLOEXEC, 0);
@@ -189,6 +195,7 @@ int open64(const char *p, int flags, ...) {
   int w = (flags & (O_WRONLY | O_RDWR | O_CREAT | O_TRUNC)) != 0;
   char ex[32]; snprintf(ex, sizeof ex, "%s%s", (flags & O_TRUNC) ? "T" : "", (flags & O_CREAT) ? "C" : "");
   gate_path(w, w ? "openw" : "openr", p, NULL, ex[0] ? ex : NULL);
+  if (take_fail()) return -1;
   return real_open64(p, flags, m);
 }
 int open(const char *p, int flags, ...) {
@@ -203,6 +210,7 @@ int openat64(int dfd, const char *p, int flags, ...) {
   if (dfd == AT_FDCWD || (p && p[0] == '/')) {
     int w = (flags & (O_WRONLY | O_RDWR | O_CREAT | O_TRUNC)) != 0;
     gate_path(w, w ? "openw" : "openr", p, NULL, NULL);
+    if (take_fail()) return -1;
   }
   return real_openat64(dfd, p, flags, m);
 }
@@ -215,6 +223,7 @@ int openat(int dfd, const char *p, int flags, ...) {
 ssize_t write(int fd, const void *b, size_t n) {
   init();
   int g = (fd > 2) ? gate_fd(1, "write", fd, n) : 0;
+  if (take_fail()) return -1;
   ssize_t r = real_write(fd, b, n);
   if (g) note_ret((long)r);
   return r;
@@ -223,6 +232,7 @@ ssize_t writev(int fd, const struct iovec *iov, int c) {
   init();
   int g = 0;
   if (fd > 2) { size_t t = 0; for (int i = 0; i < c; i++) t += iov[i].iov_len; g = gate_fd(1, "write", fd, t); }
+  if (take_fail()) return -1;
   ssize_t r = real_writev(fd, iov, c);
   if (g) note_ret((long)r);
   return r;
@@ -236,6 +246,7 @@ ssize_t copy_file_range(int fi, off64_t *oi, int fo, off64_t *oo, size_t len, un
   static ssize_t (*real)(int, off64_t *, int, off64_t *, size_t, unsigned int);
   if (!real) real = dlsym(RTLD_NEXT, "copy_file_range");
   int g = gate_fd(1, "copy_file_range", fo, len);
+  if (take_fail()) return -1;
   ssize_t r = real(fi, oi, fo, oo, len, fl);
   if (g) note_ret((long)r);
   return r;
@@ -244,6 +255,7 @@ ssize_t sendfile64(int out, int in, off64_t *off, size_t len) {
   static ssize_t (*real)(int, int, off64_t *, size_t);
   if (!real) real = dlsym(RTLD_NEXT, "sendfile64");
   int g = (out > 2) ? gate_fd(1, "sendfile", out, len) : 0;
+  if (take_fail()) return -1;
   ssize_t r = real(out, in, off, len);
   if (g) note_ret((long)r);
   return r;
@@ -252,6 +264,7 @@ ssize_t splice(int fi, off64_t *oi, int fo, off64_t *oo, size_t len, unsigned in
   static ssize_t (*real)(int, off64_t *, int, off64_t *, size_t, unsigned int);
   if (!real) real = dlsym(RTLD_NEXT, "splice");
   int g = (fo > 2) ? gate_fd(1, "splice", fo, len) : 0;
+  if (take_fail()) return -1;
   ssize_t r = real(fi, oi, fo, oo, len, fl);
   if (g) note_ret((long)r);
   return r;
@@ -265,48 +278,56 @@ int fsync(int fd) {
     fd_path(fd, a, sizeof a);
     if (considered(a, NULL)) announce(1, S_ISDIR(st.st_mode) ? "fsyncdir" : "fsync", a, NULL, NULL);
   }
+  if (take_fail()) return -1;
   return real(fd);
 }
 int fdatasync(int fd) {
   static int (*real)(int);
   if (!real) real = dlsym(RTLD_NEXT, "fdatasync");
   gate_fd(1, "fsync", fd, 0);
+  if (take_fail()) return -1;
   return real(fd);
 }
 int rename(const char *o, const char *n) {
   static int (*real)(const char *, const char *);
   if (!real) real = dlsym(RTLD_NEXT, "rename");
   gate_path(1, "rename", o, n, NULL);
+  if (take_fail()) return -1;
   return real(o, n);
 }
 int unlink(const char *p) {
   static int (*real)(const char *);
   if (!real) real = dlsym(RTLD_NEXT, "unlink");
   gate_path(1, "unlink", p, NULL, NULL);
+  if (take_fail()) return -1;
   return real(p);
 }
 int rmdir(const char *p) {
   static int (*real)(const char *);
   if (!real) real = dlsym(RTLD_NEXT, "rmdir");
   gate_path(1, "rmdir", p, NULL, NULL);
+  if (take_fail()) return -1;
   return real(p);
 }
 int mkdir(const char *p, mode_t m) {
   static int (*real)(const char *, mode_t);
   if (!real) real = dlsym(RTLD_NEXT, "mkdir");
   gate_path(1, "mkdir", p, NULL, NULL);
+  if (take_fail()) return -1;
   return real(p, m);
 }
 int futimens(int fd, const struct timespec t[2]) {
   static int (*real)(int, const struct timespec[2]);
   if (!real) real = dlsym(RTLD_NEXT, "futimens");
   gate_fd(1, "futimens", fd, 0);
+  if (take_fail()) return -1;
   return real(fd, t);
 }
 int ftruncate64(int fd, off64_t l) {
   static int (*real)(int, off64_t);
   if (!real) real = dlsym(RTLD_NEXT, "ftruncate64");
   gate_fd(1, "ftruncate", fd, (size_t)l);
+  if (take_fail()) return -1;
   return real(fd, l);
 }
 int flock(int fd, int op) {
